@@ -36,6 +36,8 @@ typedef std::vector<std::string> Elem;                 // one element = its fiel
 enum Flag : char { owner = 0, overlap = 1, border = 2, flagmax = 0x7f };
 typedef ParallelLocalIndex<Flag> PLI;
 typedef IndexPair<int, PLI> IP;
+struct Pod { double a, b; };                       // no MPITraits specialisation: shipped as sizeof raw bytes (alignment 1 for MPI)
+enum En { en0 = 0, en1 = 1000000 };                // likewise
 
 static std::vector<std::string> split(const std::string& s, char c)
 {
@@ -82,16 +84,27 @@ template<class K, int n> struct CFV { typedef FieldVector<K,n> T; static constex
 template<int k> struct CBig { typedef bigunsignedint<k> T; static constexpr int nf = 1; static constexpr int kind = 5;   // token: decimal < 2^64, or hi.lo (two decimals, value = hi*2^64+lo)
   static T make(const Elem& e) { auto p = split(e[0], '.'); if (p.size() == 1) return T((std::uintmax_t) toull(p[0]));
     return (T((std::uintmax_t) toull(p[0])) << 64) | T((std::uintmax_t) toull(p[1])); }
-  static Elem fields(const T& t) { T lo = t & T((std::uintmax_t) ~0ull); T hi = t >> 64;
-    auto u64 = [](const T& x) { unsigned long long v = 0; T y = x; for (int i = 0; i < 4; ++i) { v |= (unsigned long long) ((y >> (16 * i)) & T((std::uintmax_t) 0xffff)).touint() << (16 * i); } return v; };
-    if (k <= 64 || hi == T((std::uintmax_t) 0)) return { std::to_string(u64(lo)) };
-    return { std::to_string(u64(hi)) + "." + std::to_string(u64(lo)) }; } };
+  static Elem fields(const T& t) {
+    auto u64 = [](const T& x) { unsigned long long v = 0; T y = x; for (int i = 0; i < 4 && i < (int) T::n; ++i) { v |= (unsigned long long) ((y >> (16 * i)) & T((std::uintmax_t) 0xffff)).touint() << (16 * i); } return v; };
+    if constexpr (k <= 64) return { std::to_string(u64(t)) };
+    else { T lo = t & T((std::uintmax_t) ~0ull); T hi = t >> 64;
+      if (hi == T((std::uintmax_t) 0)) return { std::to_string(u64(lo)) };
+      return { std::to_string(u64(hi)) + "." + std::to_string(u64(lo)) }; } } };
 struct CPairID { typedef std::pair<int,double> T; static constexpr int nf = 2; static constexpr int kind = 6;
   static T make(const Elem& e) { return T((int) toll(e[0]), (double) toll(e[1])); }
   static Elem fields(const T& t) { return { std::to_string(t.first), std::to_string((long long) t.second) }; } };
 struct CPairCL { typedef std::pair<char,long> T; static constexpr int nf = 2; static constexpr int kind = 7;
   static T make(const Elem& e) { return T((char) toll(e[0]), (long) toll(e[1])); }
   static Elem fields(const T& t) { return { std::to_string((int) t.first), std::to_string(t.second) }; } };
+struct CPod { typedef Pod T; static constexpr int nf = 2; static constexpr int kind = 10;
+  static T make(const Elem& e) { return T{ (double) toll(e[0]), (double) toll(e[1]) }; }
+  static Elem fields(const T& t) { return { std::to_string((long long) t.a), std::to_string((long long) t.b) }; } };
+struct CEnum { typedef En T; static constexpr int nf = 1; static constexpr int kind = 11;
+  static T make(const Elem& e) { return En((int) toll(e[0])); }
+  static Elem fields(const T& t) { return { std::to_string((long long) (int) t) }; } };
+template<class CA, class CB> struct CPair { typedef std::pair<typename CA::T, typename CB::T> T; static constexpr int nf = CA::nf + CB::nf; static constexpr int kind = 12;
+  static T make(const Elem& e) { return T(CA::make(Elem(e.begin(), e.begin() + CA::nf)), CB::make(Elem(e.begin() + CA::nf, e.end()))); }
+  static Elem fields(const T& t) { Elem r = CA::fields(t.first); Elem b = CB::fields(t.second); r.insert(r.end(), b.begin(), b.end()); return r; } };
 struct CPLI { typedef PLI T; static constexpr int nf = 4; static constexpr int kind = 8;                 // local, attribute, public, state
   static T make(const Elem& e) { T t((std::size_t) toull(e[0]), Flag((char) toll(e[1])), toll(e[2]) != 0); t.setState(LocalIndexState(toll(e[3]))); return t; }
   static Elem fields(const T& t) { return { std::to_string(t.local()), std::to_string((int) t.attribute()), std::to_string((int) t.isPublic()), std::to_string((int) t.state()) }; } };
@@ -123,12 +136,24 @@ template<class F> static bool dispatch(const std::string& ty, F&& f)
   if (ty == "big100") { f(Tag<CBig<100>>()); return true; }
   if (ty == "pr_id") { f(Tag<CPairID>()); return true; }
   if (ty == "pr_cl") { f(Tag<CPairCL>()); return true; }
+  if (ty == "pr_li") { f(Tag<CPair<CInt<long long>, CInt<int>>>()); return true; }
+  if (ty == "pr_il") { f(Tag<CPair<CInt<int>, CInt<long long>>>()); return true; }
+  if (ty == "pr_pc") { f(Tag<CPair<CPod, CInt<char>>>()); return true; }
+  if (ty == "pr_cp") { f(Tag<CPair<CInt<char>, CPod>>()); return true; }
+  if (ty == "pr_ed") { f(Tag<CPair<CEnum, CFloat<double>>>()); return true; }
+  if (ty == "pr_n") { f(Tag<CPair<CPair<CInt<char>, CFloat<double>>, CInt<char>>>()); return true; }
+  if (ty == "big16") { f(Tag<CBig<16>>()); return true; }
+  if (ty == "big17") { f(Tag<CBig<17>>()); return true; }
+  if (ty == "big55") { f(Tag<CBig<55>>()); return true; }
+  if (ty == "fv_d2") { f(Tag<CFV<double,2>>()); return true; }
+  if (ty == "fv_l5") { f(Tag<CFV<long,5>>()); return true; }
   if (ty == "pli") { f(Tag<CPLI>()); return true; }
   if (ty == "ip") { f(Tag<CIP>()); return true; }
   return false;
 }
 static const char* ALLTYPES[] = { "int", "long", "uchar", "char", "short", "ulong", "llong", "float", "double", "ldouble", "cdouble",
-  "fv_d3", "fv_i1", "fv_c3", "big64", "big100", "pr_id", "pr_cl", "pli", "ip" };
+  "fv_d3", "fv_i1", "fv_c3", "big64", "big100", "pr_id", "pr_cl", "pli", "ip",
+  "pr_li", "pr_il", "pr_pc", "pr_cp", "pr_ed", "pr_n", "big16", "big17", "big55", "fv_d2", "fv_l5" };
 
 template<class C> static std::vector<typename C::T> make_buf(const std::string& s)
 {
@@ -425,17 +450,25 @@ static Layout ip_layout()
   auto sh = [&](std::pair<int,int> r) { return std::to_string(r.first + dl) + ":" + std::to_string(r.second); };
   return { sizeof(IP), "ip(b4.4," + std::to_string(g.first) + "," + std::to_string(dl) + "," + pli_layout().desc + "," + std::to_string(sizeof(IP)) + ")",
            rg(g) + "," + sh(p.attr), rg(g) + "," + sh(p.local) + "," + sh(p.attr) + "," + sh(p.pub) + "," + sh(p.state) }; }
+template<class T> struct IsPair : std::false_type {};
+template<class A, class B> struct IsPair<std::pair<A,B>> : std::true_type { typedef A first_type; typedef B second_type; };
+template<class T> struct IsFV : std::false_type {};
+template<class K, int n> struct IsFV<FieldVector<K,n>> : std::true_type { typedef K field; static constexpr int dim = n; };
+template<class T> struct IsBig : std::false_type {};
+template<int k> struct IsBig<bigunsignedint<k>> : std::true_type { static constexpr int bits = k; };
+static std::string shift_ranges(const std::string& s, int d)
+{ std::string r; for (auto& p : ranges(s)) { if (!r.empty()) r += ","; r += std::to_string(p.first + d) + ":" + std::to_string(p.second); } return r; }
 template<class T> static Layout layout_of()
 {
-  if constexpr (std::is_same<T,long long>::value || std::is_same<T,bool>::value) return generic_layout<T>();
+  if constexpr (std::is_same<T,long long>::value || std::is_same<T,bool>::value || std::is_same<T,Pod>::value || std::is_enum<T>::value) return generic_layout<T>();
   else if constexpr (std::is_arithmetic<T>::value || std::is_same<T,std::complex<double>>::value) return scalar_layout<T>(basic_desc<T>());
-  else if constexpr (std::is_same<T,FieldVector<double,3>>::value) return fv_layout<double,3>();
-  else if constexpr (std::is_same<T,FieldVector<int,1>>::value) return fv_layout<int,1>();
-  else if constexpr (std::is_same<T,FieldVector<char,3>>::value) return fv_layout<char,3>();
-  else if constexpr (std::is_same<T,bigunsignedint<64>>::value) return big_layout<64>();
-  else if constexpr (std::is_same<T,bigunsignedint<100>>::value) return big_layout<100>();
-  else if constexpr (std::is_same<T,std::pair<int,double>>::value) return pair_layout<int,double>("b4.4", "b8.8");
-  else if constexpr (std::is_same<T,std::pair<char,long>>::value) return pair_layout<char,long>("b1.1", "b8.8");
+  else if constexpr (IsFV<T>::value) return fv_layout<typename IsFV<T>::field, IsFV<T>::dim>();
+  else if constexpr (IsBig<T>::value) return big_layout<IsBig<T>::bits>();
+  else if constexpr (IsPair<T>::value) {
+    typedef typename IsPair<T>::first_type A; typedef typename IsPair<T>::second_type B;
+    Layout la = layout_of<A>(), lb = layout_of<B>(); int d1 = (int) offsetof(T, first), d2 = (int) offsetof(T, second);
+    return { sizeof(T), "pr(" + la.desc + "," + lb.desc + "," + std::to_string(d1) + "," + std::to_string(d2) + "," + std::to_string(sizeof(T)) + ")",
+             shift_ranges(la.comm, d1) + "," + shift_ranges(lb.comm, d2), shift_ranges(la.all, d1) + "," + shift_ranges(lb.all, d2) }; }
   else if constexpr (std::is_same<T,PLI>::value) return pli_layout();
   else return ip_layout();
 }
@@ -482,7 +515,9 @@ int main(int argc, char** argv)
       else if (c.t[0] == "pks") mine = do_pks(cc, c, me);
       else if (c.t[0] == "layout") { if (me != 0) mine = "-"; else dispatch(c.t[1], [&](auto tag) { typedef typename decltype(tag)::Codec::T T;
         int ps = 0; MPI_Pack_size(1, MPITraits<T>::getType(), MPI_COMM_WORLD, &ps); MPI_Aint lb, ext; MPI_Type_get_extent(MPITraits<T>::getType(), &lb, &ext);
-        mine = "size=" + std::to_string(ps) + " extent=" + std::to_string((long) ext) + " sizeof=" + std::to_string(sizeof(T)); }); }
+        MPI_Aint tlb, text; MPI_Type_get_true_extent(MPITraits<T>::getType(), &tlb, &text);
+        mine = "size=" + std::to_string(ps) + " extent=" + std::to_string((long) ext) + " sizeof=" + std::to_string(sizeof(T))
+             + " lb=" + std::to_string((long) lb) + " tlb=" + std::to_string((long) tlb) + " tub=" + std::to_string((long) (tlb + text)); }); }
     } catch (Dune::Exception& e) { mine = "EXC Dune"; }
     catch (std::exception& e) { mine = std::string("EXC std ") + e.what(); }
     std::string all = collect(mine, me, P);
